@@ -397,6 +397,10 @@ func (cx *Ctx) c13Pairing(r *Report, get func(Entry) *c13Walk) {
 				r.violate("enqueue-on-create", key, "", cr.entry+" no longer enqueues the object it creates under "+cr.q)
 				continue
 			}
+			if cr.mod == "random" {
+				// the entry must land on a height a begin blocker still visits
+				cx.randomDueNoWrap(r, enq)
+			}
 			okAll := true
 			for _, x := range enq {
 				if !x.must() {
